@@ -4,14 +4,16 @@
   in : {"calls": [call…], "sites": [[cell, site key]…], "init": [[cell, name]…], "schedules": [[tid…]…]}
        call = {"k":"homog","cell":c,"name":n,"initW":b,"elems":[[v,ok]…]} | {"k":"set"|"iset","cell":c,"name":n,"elems":…}
             | {"k":"map","kc":c,"vc":c,"name":n,"entries":[[[k,ok],[v,ok]]…]} | {"k":"pos","base":c,"name":n,"n":k,"elems":…}
-            | {"k":"wrap","kind":"allOf"|"anyOf"|"oneOf"|"notField","name":n,"v":v,"opts":[[cell,ok]…]}
+            | {"k":"wrap","kind":"allOf"|"anyOf"|"oneOf"|"notField"|"allOfThrough"|"oneOfThrough","name":n,"v":v,"opts":[[cell,ok]…]}
+            | {"k":"nest","cell":c,"name":n,"kind":…,"elems":[[v,[[cell,ok]…]]…]}
        a schedule lists thread ids at EVENT granularity: entry `t` = thread `t` runs up to and including its next step
        that touches a shared cell or starts a temp structure (what the harness observes); after the listed entries every
        thread runs to completion
   The programs are `modelProgs Generated.sharedWrites sites calls`: shared cells where the CURRENT tree's table lists the
   site as racy, private copies where it does not.
   out: {"progs": [[step letter…]…] (event steps as the harness spells them, others "E"), "seq": [outcome…],
-        "runs": [[outcome|null…]…], "conflictFree": bool, "treeRacy": bool, "private": [cell…]}
+        "runs": [[outcome|null…]…], "conflictFree": bool (C20_partial applies), "sameValue": bool
+        (same_value_writes_linearizable applies), "noWrites": bool, "treeRacy": bool, "private": [cell…]}
 -/
 import Lean.Data.Json
 import TypedpyModel.Sem.Sched
@@ -27,6 +29,20 @@ def elemOfJson (j : Json) : Except String (Int × Bool) := do
 
 def elemsOf (j : Json) (k : String) : Except String (List (Int × Bool)) := do
   (← (← j.getObjVal? k).getArr?).toList.mapM elemOfJson
+
+def wkindOf : String → Except String WKind
+  | "allOf" => pure WKind.allOf
+  | "anyOf" => pure WKind.anyOf
+  | "oneOf" => pure WKind.oneOf
+  | "notField" => pure WKind.notField
+  | "allOfThrough" => pure WKind.allOfThrough
+  | "oneOfThrough" => pure WKind.oneOfThrough
+  | s => throw s!"unknown wrapper kind {s}"
+
+def optOfJson (o : Json) : Except String (Nat × Bool) := do
+  let a ← o.getArr?
+  if a.size != 2 then throw "opt: expected [cell, ok]"
+  pure ((← a[0]!.getNat?), (← a[1]!.getBool?))
 
 def callOfJson (j : Json) : Except String Call := do
   let k ← (← j.getObjVal? "k").getStr?
@@ -45,17 +61,17 @@ def callOfJson (j : Json) : Except String Call := do
     pure (.pos (← (← j.getObjVal? "base").getNat?) name (← (← j.getObjVal? "n").getNat?) (← elemsOf j "elems"))
   | "iset" => pure (.iset (← (← j.getObjVal? "cell").getNat?) name (← elemsOf j "elems"))
   | "wrap" =>
-    let kind ← match (← (← j.getObjVal? "kind").getStr?) with
-      | "allOf" => pure WKind.allOf
-      | "anyOf" => pure WKind.anyOf
-      | "oneOf" => pure WKind.oneOf
-      | "notField" => pure WKind.notField
-      | s => throw s!"unknown wrapper kind {s}"
-    let opts ← (← (← j.getObjVal? "opts").getArr?).toList.mapM fun o => do
-      let a ← o.getArr?
-      if a.size != 2 then throw "opt: expected [cell, ok]"
-      pure ((← a[0]!.getNat?), (← a[1]!.getBool?))
+    let kind ← wkindOf (← (← j.getObjVal? "kind").getStr?)
+    let opts ← (← (← j.getObjVal? "opts").getArr?).toList.mapM optOfJson
     pure (.wrap kind name (← (← j.getObjVal? "v").getInt?) opts)
+  | "nest" =>
+    let kind ← wkindOf (← (← j.getObjVal? "kind").getStr?)
+    let es ← (← (← j.getObjVal? "elems").getArr?).toList.mapM fun e => do
+      let a ← e.getArr?
+      if a.size != 2 then throw "nest elem: expected [v, [[cell, ok]…]]"
+      let opts ← (← a[1]!.getArr?).toList.mapM optOfJson
+      pure ((← a[0]!.getInt?), opts)
+    pure (.nest (← (← j.getObjVal? "cell").getNat?) name kind es)
   | s => throw s!"unknown call kind {s}"
 
 def nmLetter : Nm → String
@@ -73,7 +89,7 @@ def stepLetter (s : Step) : String :=
   | .store n _ _ => s!"S{nmLetter n}"
   | .check n _ => s!"S{nmLetter n}"
   | .load n => s!"R{nmLetter n}"
-  | .move a _ => s!"R{nmLetter a}"
+  | .move a _ => s!"S{nmLetter a}"
   | .emit _ => "E"
 
 def outcomeToJson : Option Outcome → Json
@@ -105,6 +121,7 @@ def callCells : Call → List Nat
   | .map kc vc _ _ => [kc, vc]
   | .pos b _ n _ => (List.range n).map (b + ·)
   | .wrap _ _ _ os => os.map (·.1)
+  | .nest cW _ _ es => cW :: es.flatMap fun e => e.2.map (·.1)
 
 def run (j : Json) : Except String Json := do
   let calls ← (← (← j.getObjVal? "calls").getArr?).toList.mapM callOfJson
@@ -131,12 +148,23 @@ def run (j : Json) : Except String Json := do
   let runs := scheds.map fun s =>
     let cfg := Typedpy.Sched.run (Cfg.init sh progs) (expand progs s ++ completion progs)
     Json.arr ((List.range n).map fun i => outcomeToJson (resultAt cfg i)).toArray
+  -- which positive theorem covers these programs (if any)
+  let writesOf : List (Nat × Nm) := progs.flatMap fun p => p.filterMap fun s => match s with
+    | .write c n => some (c, n)
+    | _ => none
+  let k : Nat → String := fun c => match writesOf.lookup c with
+    | some (.const v) => v
+    | _ => ""
+  let sameValue := progs.all fun p => uniformB k p && readsAfterOwnWrite [] p
+  let noWrites := progs.all fun p => p.all fun s => !s.writesShared
   let priv := (sites.filter fun p => tablePriv tbl sites p.1).map fun p => Json.num (Lean.JsonNumber.fromNat p.1)
   pure (Json.mkObj [
     ("progs", Json.arr (progs.map fun p => Json.arr (p.map fun s => Json.str (stepLetter s)).toArray).toArray),
     ("seq", Json.arr (progs.map fun p => outcomeToJson (sequentialResult sh p)).toArray),
     ("runs", Json.arr runs.toArray),
     ("conflictFree", .bool (conflictFreeB progs)),
+    ("sameValue", .bool sameValue),
+    ("noWrites", .bool noWrites),
     ("treeRacy", .bool (tbl.any fun r => !r.safe && r.readBack)),
     ("private", Json.arr priv.toArray)])
 
